@@ -8,8 +8,6 @@ use std::{borrow::Cow, vec::Vec};
 ///
 /// The common practise is to use the function `to_lossy_string` to convert to a standard Rust
 /// String.
-use itertools::Itertools;
-
 use super::control::ControlCharacter;
 
 const DEFAULT_CODEPAGE: char = 'L';
@@ -159,11 +157,25 @@ pub fn to_lossy_string(input: &[u8]) -> Cow<str> {
     }
 
     // find the positions in the input for each ^L, ^B...
-    let mut indices: Vec<usize> = input
-        .iter()
-        .tuple_windows()
-        .positions(|(elem, next)| elem.is_lfs_control_char() && next.is_lfs_codepage())
-        .collect();
+    // An escaped control character (^^) is not a marker, even if a codepage letter follows it.
+    let mut indices: Vec<usize> = Vec::new();
+    let mut i = 0;
+    while i + 1 < input.len() {
+        if input[i].is_lfs_control_char() {
+            if input[i + 1].is_lfs_control_char() {
+                i += 2;
+                continue;
+            }
+
+            if input[i + 1].is_lfs_codepage() {
+                indices.push(i);
+                i += 2;
+                continue;
+            }
+        }
+
+        i += 1;
+    }
 
     // allowing unwrap because if this panics we're screwed
     let default_lfs_codepage = DEFAULT_CODEPAGE
